@@ -290,32 +290,36 @@ def build_base(root, repo):
     return table
 
 
-def compile_and_run(root, work, alg_text, psy_text, tag):
-    """Returns ("ok", stdout) | ("compile-psy"|"compile-alg"|"link"|"run", log)."""
+def compile_and_run(root, work, alg_text, psy_text, psy_from=None):
+    """Returns ("ok", stdout) | ("compile-psy"|"compile-alg"|"link"|"run", log).
+    psy_from = directory of an earlier build of the identical PSy text (its
+    object and module files are copied instead of compiling again)."""
     infra = os.path.join(root, "infra")
     base = os.path.join(root, "base")
     inc = include_flags(infra) + ["-I", base]
     os.makedirs(work, exist_ok=True)
-    psyf = f"psy_{tag}.f90"
-    algf = f"alg_{tag}.f90"
-    with open(os.path.join(work, psyf), "w", encoding="utf-8") as out:
+    with open(os.path.join(work, "psy.f90"), "w", encoding="utf-8") as out:
         out.write(psy_text)
-    with open(os.path.join(work, algf), "w", encoding="utf-8") as out:
+    with open(os.path.join(work, "alg.f90"), "w", encoding="utf-8") as out:
         out.write(alg_text)
-    res = _run([GFORTRAN] + FFLAGS + inc + ["-c", psyf], work)
-    if res.returncode:
-        return "compile-psy", res.stdout[-2500:]
-    res = _run([GFORTRAN] + FFLAGS + inc + ["-c", algf], work)
+    if psy_from is not None:
+        for name in os.listdir(psy_from):
+            if name == "psy.o" or name.endswith("_psy.mod"):
+                shutil.copy(os.path.join(psy_from, name), os.path.join(work, name))
+    else:
+        res = _run([GFORTRAN] + FFLAGS + inc + ["-c", "psy.f90"], work)
+        if res.returncode:
+            return "compile-psy", res.stdout[-2500:]
+    res = _run([GFORTRAN] + FFLAGS + inc + ["-c", "alg.f90"], work)
     if res.returncode:
         return "compile-alg", res.stdout[-2500:]
-    exe = f"run_{tag}.x"
-    objs = [algf[:-4] + ".o", psyf[:-4] + ".o"]
+    objs = ["alg.o", "psy.o"]
     objs += [os.path.join(base, o) for o in ("c24_support_mod.o", "testkern_mod.o",
                                              "testkern_stencil_mod.o")]
-    res = _run([GFORTRAN, "-o", exe] + objs + ["-L" + infra, "-llfric"], work)
+    res = _run([GFORTRAN, "-o", "run.x"] + objs + ["-L" + infra, "-llfric"], work)
     if res.returncode:
         return "link", res.stdout[-2500:]
-    res = _run([os.path.join(work, exe)], work, timeout=300)
+    res = _run([os.path.join(work, "run.x")], work, timeout=300)
     if res.returncode:
         return "run", res.stdout[-2500:]
     return "ok", res.stdout
